@@ -17,7 +17,9 @@ from mc.runner import Stats  # noqa: E402
 ID = "C35"
 LEVEL = "exploration"
 TECHNIQUE = "bounded exhaustive enumeration of configurations x payload sequences x segmentations x single-byte corruptions"
-RULE = ("(packets) every cipher (8 offered + none) x MAC (5 offered + none) x compression (none, zlib): single payloads of "
+RULE = ("(packets) every offered cipher (7 with this backend) + none x MAC (5 offered + none) x compression (none, zlib), plus 33 asymmetric "
+        "configurations (every ordered pair of ciphers with different block sizes, MAC pairs of different digest size, "
+        "compression in one direction only): single payloads of "
         "every length 0..2*blocksize+1, one of 70000 bytes, and pairs/triples over {0, pad-min, pad-max, 300 zeros, 300 pseudo-random} bytes, "
         "delivered whole, byte-at-a-time and with every single cut (singles up to blocksize+1) or every cut next to a "
         "block / MAC / packet boundary (pairs); the cut region starts at the NEWKEYS packet so key switch and data may "
@@ -28,7 +30,7 @@ RULE = ("(packets) every cipher (8 offered + none) x MAC (5 offered + none) x co
         "the sent list and no disconnect; tampered: disconnect, packets before it delivered, nothing from the altered "
         "packet on. non-trivial = a cut strictly inside a packet or line, or a corrupted byte")
 BOUNDS = {
-    "quick": "all 108 configurations; singles 0..2bs+1 (1-cuts up to bs+1), pairs with boundary cuts, triples whole+bytewise; "
+    "quick": "all 96 symmetric + 33 asymmetric configurations; singles 0..2bs+1 (1-cuts up to bs+1), pairs with boundary cuts, triples whole+bytewise; "
              "tamper: every byte x 2 masks of 1- and 2-packet streams, bytewise for the 1-packet stream",
     "thorough": "same with every 1-cut for all singles and pairs, boundary cuts for triples, bytewise tamper on both streams, "
                 "2-cuts on singles up to 4 bytes",
@@ -42,7 +44,7 @@ ASSUMPTIONS = [
     "the stream flowing (<= 1.1 MiB, the receiver's own packet limit is 1 MiB) before it demands the disconnect",
     "the observation point is SSHTransportBase.dispatchMessage (public, documented); KEXINIT is recorded, not processed",
 ]
-MIN = {"quick": {"evaluations": 285000, "nontrivial": 265000, "outcomes": 3},
+MIN = {"quick": {"evaluations": 347000, "nontrivial": 324000, "outcomes": 3},
        "thorough": {"evaluations": 2000000, "nontrivial": 2000000, "outcomes": 3}}
 
 MSG_IGNORE, MSG_KEXINIT, MSG_NEWKEYS, MSG_DATA = 2, 20, 21, 94
@@ -80,6 +82,32 @@ def configs():
     return [(c, m, z) for c in cips for m in macs for z in comps]
 
 
+def asymmetric_configs():
+    """Different algorithms in the two directions: every ordered pair of ciphers with different block sizes (the MAC pair
+    and the one-sided compression rotate along), plus, on one cipher, ordered MAC pairs of different digest size and
+    compression in one direction only."""
+    t = _tw()
+    base = t.SSHTransportBase
+    cips = list(base.supportedCiphers) + [b"none"]
+    small = [c for c in cips if c in (b"none", b"3des-cbc", b"3des-ctr")]
+    big = [c for c in cips if c not in small]
+    macpairs = [(b"hmac-md5", b"hmac-sha2-512"), (b"hmac-sha2-512", b"hmac-sha1"), (b"hmac-sha2-256", b"none"),
+                (b"none", b"hmac-sha2-384"), (b"hmac-sha1", b"hmac-sha2-256")]
+    comppairs = [(b"none", b"zlib"), (b"zlib", b"none"), (b"none", b"none"), (b"zlib", b"zlib")]
+    out, i = [], 0
+    for a in small:
+        for b in big:
+            for x, y in ((a, b), (b, a)):
+                m, z = macpairs[i % len(macpairs)], comppairs[i % len(comppairs)]
+                out.append((x, m[0], z[0], y, m[1], z[1]))
+                i += 1
+    for m in macpairs + [(b"hmac-sha2-512", b"hmac-md5"), (b"hmac-sha2-384", b"none")]:
+        out.append((b"aes128-ctr", m[0], b"none", b"aes128-ctr", m[1], b"none"))
+    for z in comppairs[:2]:
+        out.append((b"aes256-cbc", b"hmac-sha2-256", z[0], b"aes256-cbc", b"hmac-sha2-256", z[1]))
+    return out
+
+
 def install_random(seed):
     from twisted.python import randbytes
     state = [seed & 0xFF]
@@ -97,11 +125,20 @@ def key_material(seed):
     return {"ivA": blk(1), "keyA": blk(2), "macA": blk(3), "ivB": blk(4), "keyB": blk(5), "macB": blk(6)}
 
 
+def full(cfg):
+    """(cipher, MAC, compression) of the observed direction S->R, then of the reverse direction (same when symmetric)."""
+    cfg = tuple(cfg)
+    return cfg if len(cfg) == 6 else cfg + cfg
+
+
 def make_ciphers(cfg, role, seed):
     t = _tw()
-    cip, mac, _ = cfg
+    cip, mac, _, rcip, rmac, _ = full(cfg)
     k = key_material(seed)
-    c = t.SSHCiphers(cip, cip, mac, mac)
+    if role == "S":
+        c = t.SSHCiphers(cip, rcip, mac, rmac)
+    else:
+        c = t.SSHCiphers(rcip, cip, rmac, mac)
     if role == "S":
         c.setKeys(k["ivA"], k["keyA"], k["ivB"], k["keyB"], k["macA"], k["macB"])
     else:
@@ -112,8 +149,9 @@ def make_ciphers(cfg, role, seed):
 def switch_keys(tr, cfg, role, seed):
     """What ssh_NEWKEYS does after a key exchange: adopt nextEncryptions and the negotiated compression."""
     tr.nextEncryptions = make_ciphers(cfg, role, seed)
-    tr.outgoingCompressionType = cfg[2]
-    tr.incomingCompressionType = cfg[2]
+    f = full(cfg)
+    tr.outgoingCompressionType = f[2] if role == "S" else f[5]
+    tr.incomingCompressionType = f[5] if role == "S" else f[2]
     tr._newKeys()
 
 
@@ -503,7 +541,7 @@ HANDSHAKE_CFGS = [(b"aes128-ctr", b"hmac-sha2-256", b"none"), (b"aes256-cbc", b"
 
 def shards(tier, seed):
     out = []
-    for c in configs():
+    for c in configs() + asymmetric_configs():
         out.append(["cfg", [x.decode() for x in c]])
     for hi in range(len(HANDSHAKE_CFGS)):
         for bi in range(len(BANNERS)):
